@@ -13,6 +13,8 @@ CLAIMED = {
          "TLA+ model checking + spec->code edge replay + trace validation; differential denial probe"),
  "C04": ("model_checking", "6 C04", "TLC: all MC_C04 histories (lifecycle x masks x cryptographic uses) checked against C04 predicates; every model transition replayed on the real engine; random histories validated by TraceEngine.tla",
          "TLA+ model checking + spec->code edge replay + trace validation"),
+ "C05": ("model_checking", "6 C05", "TraceC05.tla keeps an abstract store built from what the client SUPPLIED (never from the database) and checks every later Get / GetAttributes / GetAttributeList of recorded histories against it (type, value token, algorithm, length, format, type-specific field, wrapping data and split-key fields as canonical text, the full attribute list expected under the reading version from the attribute rule table); the histories come from a real ProxyKmipClient / KMIPProxy wired in-process to a real KmipSession + KmipEngine + SQLite file: random objects of all seven types, server-generated keys, reads under a random version per call, activations, engine restarts",
+         "trace validation of client->wire->engine->SQLite->client histories against an explicit TLA+ store specification"),
  "C06": ("model_checking", "6 C06", "CryptoTerms.tla maps every parameter tuple of the menu (algorithm x mode x padding x IV x AAD x tag length; MAC algorithms; derivation method x hash x inputs; key-wrap modes) to a refusal or to the symbolic term the operation must compute; TLC enumerates the menu and checks Decrypt o Encrypt = id on terms; every row is executed through real Encrypt/Decrypt/MAC/DeriveKey/Get-with-wrapping requests with several key sizes and message lengths and the term is evaluated with reference implementations (hashlib/hmac, raw cipher primitives, RFC 4493/5869/3394/SP 800-108 code checked against published vectors) and compared byte for byte; GCM tamper tests, Sign/SignatureVerify with independent verification, generated keys length/freshness. TLA+ decides plumbing and refusals, the references decide arithmetic",
          "TLA+ term-algebra specification enumerated by TLC + one real request per row evaluated against reference implementations"),
  "C07": ("model_checking", "6 C07", "TLC: all MC_C07 histories (creating operations, Destroy, restarts) with ghost issued/dead sets, negative control AUTOINC=FALSE; every transition replayed with real restarts; random multi-client histories validated by TraceEngine.tla",
@@ -42,7 +44,6 @@ CLAIMED = {
 }
 NOT_YET = {
  "C01": "check not built yet in this round (TTLV.tla / KmipSchema.tla planned, DESIGN 6 C01)",
- "C05": "check not built yet in this round",
 }
 NOTE = ("Trusted base: TLC 1.8; the projection harness/absmap.py (abstract<->KMIP objects, SQLite->abstract store via stdlib sqlite3); "
         "the logical clock patched into kmip.services.server.engine; requests travel through the real TTLV encoder and decoder. "
